@@ -375,6 +375,16 @@ def SimpleView.readPointsFast (v : SimpleView) : Option (List (Int × Int × Nat
       | some (ys, _) =>
         some ((xs.zip (ys.zip flags)).map (fun t => (t.1, t.2.1, t.2.2 &&& 1)))
 
+/-- write-fonts simple.rs `impl FromObjRef<read_fonts::..::SimpleGlyph> for SimpleGlyph`: the
+contours are cut from the point iterator by the end points (`count = end - last_end` is a checked
+usize subtraction: `none` = panic; `take(count)` on a short iterator just yields fewer points). -/
+def contoursOf : Nat → List Nat → List Point → Option (List (List Point))
+  | _, [], _ => some []
+  | lastEnd, e :: es, pts =>
+    if e + 1 < lastEnd then none
+    else (contoursOf (e + 1) es (pts.drop (e + 1 - lastEnd))).map
+      (fun r => pts.take (e + 1 - lastEnd) :: r)
+
 /-! ## composite glyphs -/
 
 inductive Anchor
